@@ -69,9 +69,11 @@ PROPS["C02"] = {
     "level": "exploration",
     "rule": ("Scenario as C01 with fetch outcomes from {cacheable, uncacheable, 5xx, transport error, upstream body abort (= handler panic), hang until the location's proxy timeout}, "
              "purges and a memory store. Oracle = quiescence invariant after every op + bubble deadlock detector + every request finished after the drain. "
-             "Non-trivial = a waiter of a failed/uncacheable fetch existed OR a waiter was parked between registering and waiting when its fetch ended."),
+             "Non-trivial = a waiter of a failed/uncacheable fetch existed OR a waiter was parked between registering and waiting when its fetch ended. "
+             "TestC02Hammer (real goroutines, cache package): 4-32 goroutines x 2000-20000 lookups on 1-5 keys doing what the cache middleware does per request (get-or-create, Get, Age on a hit, Cacheable or HitForPass on a fetch; lifetime 1 s or 60 s, optional purger and store). Oracle = progress: every goroutine finishes its quota; no lookup at all completing for 20 s is a stall. Non-trivial = hits and fetches both occurred. evaluations counts lookups."),
     "assumptions": _SIM_ASSUME + ["a scenario that does not become quiescent within 40 s of real time (cases take milliseconds) is reported as a lock-involving deadlock"],
-    "jobs": [_sim("TestC02", 1500, 40000)],
+    "jobs": [_sim("TestC02", 1500, 40000),
+             {"engine": "unit", "test": "TestC02Hammer", "quick": {"shards": 8, "checks": 6, "timeout": 400, "shrinktime": "5s"}, "thorough": {"shards": 16, "checks": 150, "timeout": 3400, "shrinktime": "20s"}}],
 }
 PROPS["C03"] = {
     "level": "exploration",
@@ -89,9 +91,12 @@ PROPS["C04"] = {
     "level": "exploration",
     "rule": ("Scenario = one key, lifetimes T in {1..10,60,3600,31536000}, upstream Age absent/0/0..T+2, timed histories with clock advances concentrated on k*T, T+-1s and sub-second offsets, "
              "several refetch epochs. Oracle = interval automaton (served from cache iff elapsed < L, never at elapsed >= L+1, boundary second either; Age within 1s and <= T; version must be the latest fetch). "
-             "Non-trivial = a request inside the boundary second or an expired refetch, and at least one hit."),
+             "Non-trivial = a request inside the boundary second or an expired refetch, and at least one hit. "
+             "TestC04SlowWrite (engine N, real clock): lifetime 1-2 s, a store whose write takes 1.7-3 s longer than the lifetime, 1-3 requests arriving 0.1-1.5 s after the first. Oracle: a response served from cache (identified by the X-Serial of the upstream exchange it came from) is never answered T+1.5 s or more after that exchange, and never with Age > T. Requests that arrived before the exchange they were served from (waiters) are the open finding waiter-answer-delayed-by-store-write and excluded, counted."),
     "assumptions": _SIM_ASSUME,
-    "jobs": [_sim("TestC04", 2000, 60000), _sim("TestC04Store", 400, 15000, qshards=8)],
+    "jobs": [_sim("TestC04", 2000, 60000), _sim("TestC04Store", 400, 15000, qshards=8),
+             {"engine": "netw", "test": "TestC04SlowWrite", "quick": {"shards": 6, "checks": 2, "timeout": 400, "shrinktime": "15s"}, "thorough": {"shards": 8, "checks": 30, "timeout": 3400, "shrinktime": "60s"}},
+             {"engine": "netw", "test": "TestC04ProbeWaiterSlowWrite", "rapid": False, "probe": True, "quick": {"shards": 1, "timeout": 120}, "thorough": {"shards": 1, "timeout": 120}}],
 }
 PROPS["C06"] = {
     "level": "exploration",
@@ -149,7 +154,8 @@ PROPS["C09"] = {
              "any subset of raw/gzip/br bodies 0..64 KiB, thorough 4 MiB): FromBytes(Bytes(x)) must give equal fields and identical Fill results for 5 Accept-Encoding values, and every strict prefix "
              "(all offsets <= 4 KiB, sampled beyond) must be rejected. TestC09Mutated: bit flips, length-field overwrites with hostile values, rotations and random bytes: no panic, allocation <= 8 MiB + 64*len, "
              "successful decodes are fixed points. Thorough adds the native coverage-guided target FuzzC09FromBytes (same oracle inside the target; executions are added to evaluations). Non-trivial = response with >=2 header names and >=1 non-empty body (round trip) / input >= 12 bytes (mutated). Distinct by canonical scenario JSON. "
-             "TestC09FilterLimit: content-type filters of ASCII and multi-byte alternatives with lengths around 1000 bytes and around 1000 characters; every filter the configuration validation accepts for a server must survive the round trip of an entry carrying it (the decoder refuses filters longer than the validation allows)."),
+             "TestC09FilterLimit: content-type filters of ASCII and multi-byte alternatives with lengths around 1000 bytes and around 1000 characters; every filter the configuration validation accepts for a server must survive the round trip of an entry carrying it (the decoder refuses filters longer than the validation allows). "
+             "TestC09StoreRestore: hit / hit-for-pass entries (same generator) with createdAt = now - {0 s..10 years} and expiredAt = now + {1 min..2^40 s, incl. 365 days +- 1 s, 365.25 days, 10 years}, encoded, written to a store and found there by a new entry of the key (NewHTTPStoreCache + Get): same state, same Age (+-2 s), identical Fill results for 4 Accept-Encoding values. Non-trivial = more than a year left or a non-zero age."),
     "assumptions": ["entries are built through the hook VerifNewEntry; stored gzip/br variants are valid streams (Fill decodes them)",
                     "header values that are not valid UTF-8 are excluded by construction while the finding header-value-invalid-utf8 is open (counted under excluded_known)"],
     "jobs": [
@@ -157,6 +163,7 @@ PROPS["C09"] = {
         {"engine": "unit", "test": "TestC09Mutated", "quick": {"shards": 8, "checks": 3000, "timeout": 400}, "thorough": {"shards": 16, "checks": 100000, "timeout": 3400}},
         {"engine": "unit", "test": "TestC09FilterLimit", "quick": {"shards": 2, "checks": 300, "timeout": 300}, "thorough": {"shards": 8, "checks": 3000, "timeout": 1200}},
         {"engine": "fuzz", "test": "FuzzC09FromBytes", "rapid": False, "fuzz": True, "solo": True, "thorough": {"shards": 1, "fuzztime": "180s", "timeout": 600}},
+        {"engine": "unit", "test": "TestC09StoreRestore", "quick": {"shards": 4, "checks": 400, "timeout": 300, "shrinktime": "10s"}, "thorough": {"shards": 16, "checks": 20000, "timeout": 3000, "shrinktime": "30s"}},
         {"engine": "unit", "test": "TestC09ProbeInvalidUTF8", "rapid": False, "probe": True, "quick": {"shards": 1, "timeout": 60}, "thorough": {"shards": 1, "timeout": 60}},
     ],
 }
